@@ -70,7 +70,7 @@ def handle (op : String) (j : Json) : Option (Except String Json) :=
         | .query (.mol q) => Json.mkObj [("cls", "query"), ("kind", "MolQuery"), ("atoms", Json.num q.labels.length),
             ("bonds", Json.num q.bonds.length), ("labels", Json.arr (q.labels.map fun l => Json.str (String.ofList l)).toArray)]
         | .query (.rxn s) =>
-            let qs := s.rq.filterMap fun e => s.heap[e.2]?
+            let qs := s.rq.map fun e => e.2
             let na : Nat := (qs.map fun q => q.labels.length).sum
             let nb : Nat := (qs.map fun q => q.bonds.length).sum
             Json.mkObj [("cls", "query"), ("kind", "ReactionQuery"), ("reactants", Json.num s.rq.length),
